@@ -1,1 +1,201 @@
-import MgModel.C02.Ring
+import MgProof.C02.Assemble
+/-!
+# C02 — ring buffer: one total write order; read `i` = `i`-th message; read-once exactly once; HB
+
+Property theorems over the step model `MgModel.C02` (one step = one shared-memory access or
+blocking primitive of the compiled `ring_buffer.c`, `spinlock.c`). Everything is quantified over
+
+* every configuration `c` with `WF c e`: power-of-two capacity `2^e` (`e ≤ 32`, what
+  `muggle_ring_buffer_init` produces), any number of writers and readers (`nW ≤ 1` only when the
+  single-writer flag is used — the user guarantee that comes with the flag), any number of
+  messages per writer and reads per reader, any 32-bit start index `base` (including values
+  whose successors wrap `2^32`), any throttle limit `lim ≤ cap - 1` — the documented no-lapping
+  precondition, enforced by the harness's throttle, which the model contains;
+* every reader/writer mode (locked / single writer; wait, single-wait, busy-loop, read-once);
+* every reachable state `Reach (step c) (mkInit c) s`, i.e. every schedule of every length.
+
+`written` is the ghost list of messages in the order of the release stores of `cursor`.
+-/
+namespace MgProof.C02
+open MgModel.Conc MgModel.C02
+
+/-! ## Clause 1: a single total write order; `read i` returns exactly its `i`-th message -/
+
+/-- **One total order / read `i` = `i`-th message** (wait, single-wait and busy-loop readers).
+In every reachable state, what reader `t` has been handed by its first `rk t` calls
+`read(base), read(base+1), …` is exactly the segment `written[pre], …, written[pre + rk t - 1]`
+of the single write order (`pre = base mod cap` messages precede index `base`): no loss, no
+duplicate, no reordering, no message of another position, for every reader. -/
+theorem read_returns_ith_message {c : Cfg} {e : Nat} (wf : WF c e) (hm : c.rm ≠ .once) {s : St}
+    (hr : Reach (step c) (mkInit c) s) (t : Nat) :
+    s.got t = (s.written.drop c.pre).take (s.rk t) ∧ (s.got t).length = s.rk t := by
+  have k := (inv_reach wf hr).k hm
+  refine ⟨k.got t, ?_⟩
+  rw [k.got t, List.length_take, List.length_drop]
+  have := k.le t
+  omega
+
+/-- **Every reader sees the same order**: of two readers the one that has read less holds a
+prefix of what the other one holds. -/
+theorem readers_agree {c : Cfg} {e : Nat} (wf : WF c e) (hm : c.rm ≠ .once) {s : St}
+    (hr : Reach (step c) (mkInit c) s) (t u : Nat) (h : s.rk t ≤ s.rk u) : s.got t <+: s.got u := by
+  rw [(read_returns_ith_message wf hm hr t).1, (read_returns_ith_message wf hm hr u).1]
+  exact List.take_prefix_take_left h
+
+/-- **Blocking until it exists**: a read never returns a message that has not been published —
+the number of messages handed to a reader never exceeds what `written` holds beyond `pre`; and a
+reader that has decided to fetch its slot (`rSlot`) does so only when its message exists. -/
+theorem read_only_after_written {c : Cfg} {e : Nat} (wf : WF c e) (hm : c.rm ≠ .once) {s : St}
+    (hr : Reach (step c) (mkInit c) s) (t : Nat) :
+    c.pre + s.rk t ≤ s.written.length ∧ (s.pc t = .rSlot → c.pre + s.rk t < s.written.length) :=
+  ⟨((inv_reach wf hr).k hm).le t, ((inv_reach wf hr).k hm).rsl t⟩
+
+/-- **Wrap of the 32-bit reader index is harmless** (a lemma, not an assumption): the slot the
+reader looks at for its `j`-th call, computed by the C code from the wrapped 32-bit index
+`(base + j) mod 2^32` with two maskings, is the slot of position `pre + j` of the write order. -/
+theorem index_wrap_harmless {c : Cfg} {e : Nat} (wf : WF c e) (hm : c.rm ≠ .once) (s : St) (t : Nat) :
+    rposOf c s t = (c.pre + s.rk t) % c.cap := rposOf_eq wf hm s t
+
+/-- **No lapping is maintained** by the throttle: the writers (published + in flight) are never a
+full capacity ahead of any unfinished reader, and the cursor is the number of published messages
+modulo capacity. -/
+theorem no_lapping {c : Cfg} {e : Nat} (wf : WF c e) (hm : c.rm ≠ .once) {s : St}
+    (hr : Reach (step c) (mkInit c) s) (t : Nat) (h1 : c.nW ≤ t) (h2 : t < c.nT) (h3 : s.rk t < c.nr) :
+    s.written.length < c.pre + s.rk t + c.cap ∧ s.cursor = s.written.length % c.cap := by
+  have i := inv_reach wf hr
+  have := (i.k hm).nolap t h1 h2 h3
+  have := i.b.cntS
+  have := wf.hlim
+  exact ⟨by omega, i.a1.cur⟩
+
+/-- **Writers exclude each other on the write position** (locked mode: through the inlined
+spinlock; single-writer mode: by the user guarantee), and a slot store never leaves `[0, cap)`:
+no out-of-bounds access (`oob` counts them) in any mode. -/
+theorem writers_exclusive_and_in_bounds {c : Cfg} {e : Nat} (wf : WF c e) {s : St}
+    (hr : Reach (step c) (mkInit c) s) :
+    (∀ t u, inW (s.pc t) = true → inW (s.pc u) = true → t = u) ∧ s.oob = 0 :=
+  ⟨(inv_reach wf hr).a1.excl, (inv_reach wf hr).oob⟩
+
+/-! ## Clause 2: read-once — each message to exactly one reader, collectively in write order -/
+
+/-- **Read-once: collectively in write order without loss or duplication.** The messages consumed
+so far, in `read_mutex` acquisition order (`delivered`, each with the reader that got it), are
+exactly the first `delivered.length` messages of the write order: position `i` of the write order
+is consumed exactly once, by the reader `delivered[i].2`. -/
+theorem read_once_in_write_order {c : Cfg} {e : Nat} (wf : WF c e) (hm : c.rm = .once) {s : St}
+    (hr : Reach (step c) (mkInit c) s) :
+    s.delivered.map Prod.fst = s.written.take s.delivered.length ∧
+    s.delivered.length ≤ s.written.length :=
+  ⟨((inv_reach wf hr).d hm).1.dl, ((inv_reach wf hr).d hm).1.dle⟩
+
+/-- **Read-once: each message goes to exactly one of the competing readers**: what reader `t`
+holds is exactly its share of the consumption order, so the readers' results partition the
+consumed prefix of the write order (an entry of `delivered` names one reader). -/
+theorem read_once_each_to_one_reader {c : Cfg} {e : Nat} (wf : WF c e) (hm : c.rm = .once) {s : St}
+    (hr : Reach (step c) (mkInit c) s) (t : Nat) :
+    s.got t = (s.delivered.filter (fun x => x.2 == t)).map Prod.fst :=
+  ((inv_reach wf hr).d hm).2 t
+
+/-- **Read-once readers exclude each other** (`read_mutex`), and the shared consumer position
+`read_cursor` is the number of consumed messages modulo capacity; the writers are never a full
+capacity ahead of the consumption point. -/
+theorem read_once_consumer_position {c : Cfg} {e : Nat} (wf : WF c e) (hm : c.rm = .once) {s : St}
+    (hr : Reach (step c) (mkInit c) s) :
+    (∀ t u, holder (s.pc t) = true → holder (s.pc u) = true → t = u) ∧
+    s.readCursor = s.delivered.length % c.cap ∧
+    ((∃ u, c.nW ≤ u ∧ u < c.nT ∧ s.rk u < c.nr) → s.written.length < s.delivered.length + c.cap) := by
+  have i := inv_reach wf hr
+  have d := (i.d hm).1
+  refine ⟨d.exclM, d.rc, ?_⟩
+  rintro ⟨u, h1, h2, h3⟩
+  have := d.nolapO u h1 h2 h3
+  have := d.td
+  have := i.b.cntS
+  have := wf.hlim
+  omega
+
+/-! ## Clause 3: what the producer stored before writing is visible to every receiving reader -/
+
+/-- **Payload visibility (happens-before).** `know t` is the set of messages whose payload thread
+`t` is guaranteed to see (its own stores + everything joined through acquire operations from
+release operations). No reader is ever handed a message outside `know` (`hbViol` counts such
+hand-overs at the return of `muggle_ring_buffer_read`), in every mode: the release store of
+`cursor` publishes all earlier messages (the spinlock hands the writers' knowledge on), the
+reader's acquire load of `cursor` joins them. -/
+theorem payload_visible {c : Cfg} {e : Nat} (wf : WF c e) {s : St}
+    (hr : Reach (step c) (mkInit c) s) :
+    s.hbViol = 0 ∧ (∀ m, m ∈ s.written → m ∈ s.relCursor) ∧
+    (∀ t m, s.pc t = .oUnlock m → m ∈ s.know t) ∧
+    (∀ t, s.pc t = .rSlot → ∀ m, s.written[c.pre + s.rk t]? = some m → m ∈ s.know t) := by
+  have x := (inv_reach wf hr).e
+  exact ⟨x.hb, x.wr, fun t m h => x.o3 t m (Or.inr (Or.inr h)), fun t h => (x.rd t h).2⟩
+
+/-- The executable specification used by the driver (`specOk`, printed as `# spec ok=…`) holds in
+every reachable state. -/
+theorem specOk_reachable {c : Cfg} {e : Nat} (wf : WF c e) {s : St}
+    (hr : Reach (step c) (mkInit c) s) : specOk c s = true := by
+  have i := inv_reach wf hr
+  simp only [specOk, Bool.and_eq_true, beq_iff_eq]
+  refine ⟨⟨i.e.hb, i.oob⟩, ?_⟩
+  split
+  · rename_i hm
+    simp only [onceOk, beq_iff_eq]
+    exact ((i.d hm).1).dl
+  · rename_i hm
+    rw [List.all_eq_true]
+    intro t _
+    simp only [Bool.or_eq_true, Bool.not_eq_true', readerOk, beq_iff_eq]
+    right
+    have := read_returns_ith_message wf hm hr t
+    rw [this.2]; exact this.1
+
+/-! ## Non-vacuity and the necessity of the precondition -/
+
+/-- string-free runner used for the concrete witnesses below -/
+def runSt (c : Cfg) : St → List Nat → St
+  | s, [] => s
+  | s, t :: ts => match stepSt c s t with
+    | some s' => runSt c s' ts
+    | none => s
+
+theorem reach_runSt (c : Cfg) (s : St) (hr : Reach (step c) (mkInit c) s) (ts : List Nat) :
+    Reach (step c) (mkInit c) (runSt c s ts) := by
+  induction ts generalizing s with
+  | nil => exact hr
+  | cons t ts ih =>
+    simp only [runSt]
+    cases h : stepSt c s t with
+    | none => exact hr
+    | some s' =>
+      exact ih s' (Reach.step (t := { tid := t }) (ev := stepEv c s t) hr (by simp [step, h]))
+
+/-- capacity 2, locked writers, waiting readers, 1 writer × 2 messages, 1 reader × 2 reads,
+start index `2^32 - 1` (the second read wraps the 32-bit index), throttle limit `cap - 1` -/
+def exCfg : Cfg :=
+  { cap := 2, wm := .lock, rm := .wait, nW := 1, nR := 1, nw := 2, nr := 2, base := 2 ^ 32 - 1, lim := 1 }
+
+theorem exCfg_wf : WF exCfg 1 := ⟨by decide, by decide, by decide, by decide⟩
+
+/-- the hypotheses are satisfiable and the theorems talk about non-trivial states: a schedule in
+which the reader parks in the futex, is woken by the writer, and both messages are delivered
+across the wrap of the 32-bit index. -/
+example : ∃ s, Reach (step exCfg) (mkInit exCfg) s ∧ s.written = [1, 100, 101] ∧ s.got 1 = [100, 101] ∧
+    s.pc 0 = .done ∧ s.pc 1 = .done :=
+  ⟨runSt exCfg (mkInit exCfg) [0, 1, 1, 1, 0, 0, 0, 0, 0, 0, 0, 1, 1, 1, 1, 1, 0, 0, 0, 0, 0, 0, 0, 0, 1, 1, 1],
+   reach_runSt _ _ Reach.init _, by decide, by decide, by decide, by decide⟩
+
+/-- the same ring with the throttle opened to `lim = cap + 1`: outside the documented
+precondition (not `WF`) -/
+def lapCfg : Cfg := { exCfg with base := 0, nw := 3, nr := 1, lim := 3 }
+
+/-- **The no-lapping precondition is necessary** (negation witness, ABA on `cursor == idx`): when
+the writers may get a full capacity ahead, a reader that has seen its message published is
+overtaken between its cursor load and its slot read and returns a *later* message — the reachable
+state below violates the statement of `read_returns_ith_message`. -/
+theorem lapping_breaks_order : ∃ s, Reach (step lapCfg) (mkInit lapCfg) s ∧
+    s.got 1 ≠ (s.written.drop lapCfg.pre).take (s.rk 1) :=
+  ⟨runSt lapCfg (mkInit lapCfg)
+     [0, 1, 0, 0, 0, 0, 0, 0, 0, 1, 0, 0, 0, 0, 0, 0, 0, 0, 0, 0, 0, 0, 0, 0, 1],
+   reach_runSt _ _ Reach.init _, by decide⟩
+
+end MgProof.C02
